@@ -44,6 +44,10 @@ INFO = {
    text="Lean 4 theorems over exact rationals for ALL distributions and ALL binary operations: arithmetic on dice is the push-forward of the product measure (prob (bop f a b) z = sum over x,y with f x y = z of p_x p_y), the listed outcomes are pairwise distinct, total probability multiplies (so stays 1), and roll yields a listed outcome for EVERY value of the random source and EVERY threshold function (the floating-point step is a parameter), and always yields something. Tied to the Rust by evaluating all NdM (N<=4, M<=12; more in thorough) and random dice arithmetic through fend_core, comparing the printed distribution, mean(...) and roll(...) under a harness-controlled random function at 0, 2^32-1, every cumulative threshold +-1 and random points with exact convolution (Python Fractions) and with the Lean model.",
    note="Partial: the two-decimal percentages come from f64 formatting (checked to within half a unit of the last digit against the exact value, not proved); the sampling threshold ((p as f64) * u32::MAX) as u32 is a parameter of the theorem and is reproduced with floats in the driver for the correspondence. new_die = N-fold convolution is checked by kernel decide on instances and by the correspondence run, not proved for all N, M. Trusted: Lean kernel + 3 axioms, harness.",
    technique="Lean 4 proofs over a list-of-(outcome,probability) model with core Rat + differential correspondence incl. controlled random source", ref="7/C17"),
+ "C04": dict(
+   text="Lean 4 theorems over exact rationals about the conversion algorithm (reduce every compound unit to base units with an accumulated scale, compare the base-unit exponents, multiply by the ratio of the scales), for ALL units with non-zero scales and ALL quantities: a conversion multiplies by the single ratio scale(a)/scale(b) and is linear, converting back returns the original quantity exactly (offsets included), going through an intermediate unit equals converting directly, plain celsius/fahrenheit/kelvin convert affinely and are scaled only inside sums; the concrete factors fixed by standards (SI, international yard and pound, binary and SI bytes, ...) are table theorems (decide +kernel) over the resolved table REGENERATED from the tree on every run. Tied to the Rust by converting random compound units (products, quotients, powers, prefixed spellings) there, back and via intermediates through fend_core and comparing the exact fractions with the model fed by the tree's own resolved table and with Python Fractions.",
+   note="Trusted: translator/units*.py (parsing of builtin.rs and of @debug output), Lean kernel + 3 axioms. Irrational scale powers (e.g. sqrt of a scaled unit) and approximate units are excluded from exact comparison. D15 (`1 kg + (approx. 0) m` accepted) was repaired in /repo.",
+   technique="Lean 4 algebraic proofs over a rational conversion model + regenerated standards table (decide +kernel) + differential correspondence", ref="7/C04"),
  "C11": dict(
    text="The quantifier is the finite unit table of the tree under test, so the table is REGENERATED on every run — raw tuples parsed from builtin.rs, and what the built tree resolves every singular/plural name to (exact rationals x pi^k and base-unit exponents, read from `@debug 1 <name>`) — and complete kernel evaluations (decide +kernel, no sampling) prove: every name resolves, singular = plural, short/long spellings agree, sqX = X2 = X^2 and cbX = X3 = X^3, and ~40 standards-defined factors. Lean theorems about the lookup model, for every table and custom-unit configuration: custom units take precedence, a prefixed reading is produced only when the prefix's and the unit's rules allow it, the first definition of a doubly-defined name wins. The lookup model runs over the regenerated raw table and is diffed against the implementation on every name x case variant x long/short prefix, with custom units of every attribute kind and both C/F modes.",
    note="Trusted: translator/units.py (regex extraction of the const tables; parsing of @debug output), Lean kernel + 3 axioms. Approximate units (pi^2, ln) are only checked to resolve, not compared. Observed and NOT claimed as a defect: a custom `is-long-prefix` unit never acts as a prefix (prefix lookups skip custom units); `gal`/`gals` resolve to different definitions because `gal` is defined twice (first definition wins).",
